@@ -8,6 +8,6 @@ package main
 // flag is set to true (harness/c08_fixed.go.after-fix) and the same observation is an ordinary
 // VIOLATION again.
 const (
-	c08CallTreeFixed      = false // fixes/C08-calltree-deterministic.patch
-	c08SprintCollisionFix = false // fixes/C08-comparenodes-fieldwise-tiebreak.patch
+	c08CallTreeFixed      = true // fixes/C08-calltree-deterministic.patch
+	c08SprintCollisionFix = true // fixes/C08-comparenodes-fieldwise-tiebreak.patch
 )
